@@ -54,14 +54,70 @@ theorem pushGate_sem_new (b : Builder) (g : BGate) (inp : List Bool) (hi : inp.l
   rw [List.getD_eq_getElem?_getD, List.getElem?_append_right (by omega)]
   simp [hlen, vals, valsFrom]
 
-theorem pushGate_spec {b : Builder} (hb : WF b) (g : BGate) (hg : opsLt g b.counter) :
+/-- the gates after a push: the old ones, then the new one -/
+theorem pushGate_getElem? (b : Builder) (g g' : BGate) (i : Nat) (h : (b.pushGate g).2.gates[i]? = some g') :
+    (i < b.gates.length ∧ b.gates[i]? = some g') ∨ (i = b.gates.length ∧ g' = g) := by
+  simp only [pushGate] at h
+  rcases Nat.lt_or_ge i b.gates.length with hlt | hge
+  · rw [List.getElem?_append_left hlt] at h
+    exact Or.inl ⟨hlt, h⟩
+  · rw [List.getElem?_append_right hge] at h
+    rcases Nat.eq_zero_or_pos (i - b.gates.length) with hz | hp
+    · simp [hz] at h
+      exact Or.inr ⟨by omega, h.symm⟩
+    · have : (i - b.gates.length) ≠ 0 := by omega
+      simp [List.getElem?_cons, this] at h
+
+/-- same unordered pair of operands -/
+def samePair (x y x' y' : Nat) : Prop := (x = x' ∧ y = y') ∨ (x = y' ∧ y = x')
+
+theorem pushGate_spec {b : Builder} (hb : WF b) (g : BGate) (hg : opsLt g b.counter)
+    (hn : ∀ x y, g = .and x y → x ≠ y ∧ 2 ≤ x ∧ 2 ≤ y)
+    (hu : b.cacheOn = true → ∀ x y, g = .and x y → ∀ (i x' y' : Nat), b.gates[i]? = some (BGate.and x' y') →
+      ¬ samePair x y x' y') :
     WF (b.pushGate g).2 ∧ (b.pushGate g).1 = b.counter ∧
     ∀ inp, inp.length + 2 = b.shift → (b.pushGate g).2.sem inp b.counter = gateVal (b.vals inp) g := by
   have hext := pushGate_ext b g
   have hcnt := pushGate_counter b g
   refine ⟨?_, rfl, pushGate_sem_new b g⟩
-  refine ⟨hb.shift2, ?_, ?_, ?_⟩
-  · intro i g' hi
+  refine ⟨hb.shift2, ?ops, ?cs, ?ns, ?an, ?cc, ?au⟩
+  case cc =>
+    intro hc i x y hi
+    have hc' : b.cacheOn = true := hc
+    have hcache : (b.pushGate g).2.cache = b.cache.insert g b.counter := by simp [pushGate, hc']
+    rw [hcache, Std.HashMap.getElem?_insert]
+    split
+    · rfl
+    · rename_i hne
+      rcases pushGate_getElem? b g _ i hi with ⟨_, hold⟩ | ⟨_, hnew⟩
+      · exact hb.cacheCover hc' i x y hold
+      · exact absurd (by simp [hnew]) hne
+  case au =>
+    intro hc i j x y x' y' hi hj hsame
+    have hc' : b.cacheOn = true := hc
+    rcases pushGate_getElem? b g _ i hi with ⟨hil, hio⟩ | ⟨hil, hin⟩ <;>
+    rcases pushGate_getElem? b g _ j hj with ⟨hjl, hjo⟩ | ⟨hjl, hjn⟩
+    · exact hb.andUniq hc' i j x y x' y' hio hjo hsame
+    · exact absurd (show samePair x' y' x y from by
+        rcases hsame with ⟨rfl, rfl⟩ | ⟨rfl, rfl⟩
+        · exact Or.inl ⟨rfl, rfl⟩
+        · exact Or.inr ⟨rfl, rfl⟩) (hu hc' x' y' hjn.symm i x y hio)
+    · exact absurd hsame (hu hc' x y hin.symm j x' y' hjo)
+    · omega
+  case an =>
+    intro i x y hi
+    simp only [pushGate] at hi
+    rcases Nat.lt_or_ge i b.gates.length with hlt | hge
+    · rw [List.getElem?_append_left hlt] at hi
+      exact hb.andNorm i x y hi
+    · rw [List.getElem?_append_right hge] at hi
+      rcases Nat.eq_zero_or_pos (i - b.gates.length) with hz | hp
+      · simp [hz] at hi
+        exact hn x y hi
+      · have : (i - b.gates.length) ≠ 0 := by omega
+        simp [List.getElem?_cons, this] at hi
+  case ops =>
+    intro i g' hi
     simp only [pushGate] at hi
     rcases Nat.lt_or_ge i b.gates.length with hlt | hge
     · rw [List.getElem?_append_left hlt] at hi
@@ -75,7 +131,8 @@ theorem pushGate_spec {b : Builder} (hb : WF b) (g : BGate) (hg : opsLt g b.coun
         rw [this]; exact hg
       · have : (i - b.gates.length) ≠ 0 := by omega
         simp [List.getElem?_cons, this] at hi
-  · intro g' w hgw
+  case cs =>
+    intro g' w hgw
     by_cases hc : b.cacheOn
     · simp only [pushGate, hc, if_true] at hgw
       rw [Std.HashMap.getElem?_insert] at hgw
@@ -91,7 +148,8 @@ theorem pushGate_spec {b : Builder} (hb : WF b) (g : BGate) (hg : opsLt g b.coun
     · have hc' : b.cacheOn = false := by simpa using hc
       simp only [pushGate, hc'] at hgw
       exact cacheEntry_mono hext g' w (hb.cacheSound g' w hgw)
-  · intro a n han
+  case ns =>
+    intro a n han
     exact negEntry_mono hext a n (hb.negSound a n han)
 
 theorem getCached_sound {b : Builder} (hb : WF b) (g : BGate) (w : Nat) (h : b.getCached g = some w) :
@@ -160,7 +218,7 @@ theorem optimizeXor_sound {b : Builder} (hb : WF b) (x y w : Nat) (hx : x < b.co
 theorem pushXorRaw_post {b : Builder} (hb : WF b) (x y : Nat) (hx : x < b.counter) (hy : y < b.counter) :
     Post b (· ^^ ·) x y (b.pushXorRaw x y) := by
   have hg : opsLt (.xor x y) b.counter := ⟨hx, hy⟩
-  obtain ⟨hwf, _, hsem⟩ := pushGate_spec hb (.xor x y) hg
+  obtain ⟨hwf, _, hsem⟩ := pushGate_spec hb (.xor x y) hg (fun _ _ h => by simp at h) (fun _ _ _ h => by simp at h)
   have hext := pushGate_ext b (.xor x y)
   have hcnt := pushGate_counter b (.xor x y)
   -- the builder after the optional `negated` updates has the same gates
@@ -176,7 +234,12 @@ theorem pushXorRaw_post {b : Builder} (hb : WF b) (x y : Nat) (hx : x < b.counte
       intro inp; simp [vals, hgates]
     have hcnt2 : b2.counter = b.counter + 1 := by
       rw [← hcnt]; simp [counter, hgates, hshift, pushGate]
-    refine ⟨⟨by rw [hshift]; exact hb.shift2, ?_, ?_, hneg⟩, ⟨hshift, hco, ⟨[.xor x y], by rw [hgates]; rfl⟩⟩,
+    have hco2 : b2.cacheOn = (b.pushGate (.xor x y)).2.cacheOn := by rw [hco]; rfl
+    refine ⟨⟨by rw [hshift]; exact hb.shift2, ?_, ?_, hneg, fun i x' y' hi => hwf.andNorm i x' y' (by rw [← hgates]; exact hi),
+        fun hc i x' y' hi => by rw [hcache]; exact hwf.cacheCover (by rw [← hco2]; exact hc) i x' y' (by rw [← hgates]; exact hi),
+        fun hc i j x1 y1 x2 y2 hi hj hs => hwf.andUniq (by rw [← hco2]; exact hc) i j x1 y1 x2 y2
+          (by rw [← hgates]; exact hi) (by rw [← hgates]; exact hj) hs⟩,
+      ⟨hshift, hco, ⟨[.xor x y], by rw [hgates]; rfl⟩⟩,
       by show b.counter < b2.counter; omega, fun inp hi => ?_⟩
     · intro i g hi; rw [hgates] at hi; rw [hshift]; exact hwf.ops i g hi
     · intro g w hgw; rw [hcache] at hgw
